@@ -16,7 +16,7 @@ def workload(tier: str, seed: int) -> tuple[list[dict], dict]:
         want = {"corpus": 1, "core-exh": 100000, "core-rand": 1500, "edge": 150}
         ks, cap = (2, 3), 4000
     defs = lcase.definitions(tier, seed + 1000, want)
-    cases, stats = lcase.s1_cases(defs, seed, k_list=ks, schedules=2, check_extra=True,
+    cases, stats = lcase.s1_cases(defs, seed, k_list=ks, schedules=2, corpus_schedules=8, check_extra=True,
                                   extra_cap=cap)
     stats["definitions"] = len(defs)
     return cases, stats
